@@ -12,9 +12,16 @@ import (
 // requests cancelled at every read position of the datastore.
 func C09(run *Run) {
 	if run.Replay != "" {
+		if replayKind(run.Replay) == "itercache" {
+			iterCacheConformance(run)
+			return
+		}
 		replayCore(run)
 		return
 	}
+	// the iterator cache as a sequential object, including reads abandoned after the first tuple: what
+	// is served later must be a complete answer of the right version (IterCacheTrace.tla)
+	iterCacheConformance(run)
 	r := rand.New(rand.NewSource(run.Seed))
 	ds := NewCancelDS(memory.New())
 	v := NewVariantsDS(ds)
